@@ -111,7 +111,7 @@ func TestC18_NetPools(t *testing.T) {
 // TestC18_ServerLifecycle cycles servers through start/stop with and without traffic;
 // its oracle is the race detector (thorough tier) plus clean start/stop.
 func TestC18_ServerLifecycle(t *testing.T) {
-	ev.Rule(c18, "server lifecycle: start/stop cycles of mpx and rpc servers with no connection, with an idle connection and with a finished echo, concurrently from several goroutines; oracle: Start and Stop succeed in bounded time and (thorough tier) the race detector reports no unsynchronised access inside the module")
+	ev.Rule(c18, "server lifecycle: start/stop cycles of mpx and rpc servers with no connection, with an idle connection and with a finished echo, concurrently from several goroutines, each with a goroutine polling Server.Address() while its server stops; oracle: Start and Stop succeed, Address() never returns an empty string, in bounded time and (thorough tier) the race detector reports no unsynchronised access inside the module")
 	ev.CheckScaled(t, c18, 1, 8, func(rt *rapid.T) {
 		defer drawSched(rt).install()() // seeded yields at the library's schedule points
 		g := rapid.IntRange(1, 4).Draw(rt, "goroutines")
@@ -146,9 +146,29 @@ func TestC18_ServerLifecycle(t *testing.T) {
 						p.Close()
 					}
 				}
+				// Address() is asked for concurrently with the shutdown (public API, any goroutine)
+				pollDone := make(chan struct{})
+				stopPoll := make(chan struct{})
+				go func() {
+					defer close(pollDone)
+					for {
+						select {
+						case <-stopPoll:
+							return
+						default:
+						}
+						if a := srv.S.Address(); a == "" {
+							er.addf("Address() returned an empty string")
+							return
+						}
+						runtimeGosched()
+					}
+				}()
 				if err := srv.Stop(); err != nil {
 					er.addf("stop: %v", err)
 				}
+				close(stopPoll)
+				<-pollDone
 			}(modes[i])
 		}
 		if !waitGroupTimeout(&wg, hangTimeout()) {
